@@ -113,14 +113,19 @@ def write_hb(rng, cplx, single, rb=False):
     tot = len(ptr_lines) + len(ind_lines) + len(val_lines) + rhscrd
     mxtype = ('C' if cplx else 'R') + symch + 'A'
     out = []
-    title = 'verif generated matrix %d x %d' % (m, n)
+    # free text: anything printable may stand in the 72 title and 8 key columns (digits, signs, exponent letters, ...)
+    alpha = 'ABCDEFGHIJKLMNOPQRSTUVWXYZabcdefghijklmnopqrstuvwxyz' + '0123456789' * 4 + ' ' * 20 + '.,;:+-*/()[]#=_' + 'EeDd'
+    tl = rng.choice([0, 5, 30, 72, 72, 72])
+    title = ''.join(rng.choice(alpha) for _ in range(tl))
+    if rng.random() < 0.3: title = 'verif generated matrix %d x %d' % (m, n)
+    key = ''.join(rng.choice(alpha) for _ in range(8)) if rng.random() < 0.7 else 'VERIFKEY'
     if rb:
-        out.append((title.ljust(72) + 'VERIFKEY')[:80])
+        out.append((title.ljust(72) + key)[:80])
         out.append('%14d%14d%14d%14d' % (tot, len(ptr_lines), len(ind_lines), len(val_lines)))
         out.append('%-3s%11s%14d%14d%14d%14d' % (mxtype.lower() if rng.random() < 0.3 else mxtype, '', m, n, nnz, 0))
         out.append('%-16s%-16s%-20s' % ('(%dI%d)' % (ck, cw), '(%dI%d)' % (rk, rw), vdesc))
     else:
-        out.append(title.ljust(72) + 'VERIFKEY')
+        out.append(title.ljust(72) + key)
         out.append('%14d%14d%14d%14d%14d' % (tot, len(ptr_lines), len(ind_lines), len(val_lines), rhscrd))
         out.append('%-3s%11s%14d%14d%14d%14d' % (mxtype, '', m, n, nnz, 0))
         out.append('%-16s%-16s%-20s%-20s' % ('(%dI%d)' % (ck, cw), '(%dI%d)' % (rk, rw), vdesc, rdesc if rhs else ''))
